@@ -269,24 +269,26 @@ def store_body(t, n_calls=3):
     calls = []
     for _ in range(n_calls):
         calls.append((args[t.take(len(args))][0], ress[t.take(len(ress))]))
-    _rows, base, _err = P.run_pipeline(kind, calls, k, rw, "default")
+    # --limit: the default, or exactly the number of calls (never fewer than the distinct traces, so the limit must not bite)
+    limit = (2000, n_calls)[t.take(2)]
+    _rows, base, _err = P.run_pipeline(kind, calls, k, rw, "default", (), limit)
     rest = list(calls)
     perm = []
     while rest:
         perm.append(rest.pop(t.take(len(rest)) if len(rest) > 1 else 0))
     dup = t.take(n_calls + 1)
     if dup < n_calls:
-        perm.append(calls[dup])
+        perm.insert(t.take(len(perm) + 1), calls[dup])  # the duplicate row may sit anywhere among the others
     flush_after = (t.take(len(perm)),)
-    _rows2, other, _err2 = P.run_pipeline(kind, perm, k, rw, "default", flush_after)
+    _rows2, other, _err2 = P.run_pipeline(kind, perm, k, rw, "default", flush_after, limit)
     if (base is None) != (other is None):
         return check(False, "a stub in one order, none in the other")
     r = same_stub(base, other, M)
-    return check(r is None, lambda: f"{kind} k={k} {rw}: calls {calls} vs {perm} (flush after {flush_after}): {r}\n--- first ---\n{base}\n--- second ---\n{other}")
+    return check(r is None, lambda: f"{kind} k={k} {rw}: calls {calls} vs {perm} (flush after {flush_after}, limit {limit}): {r}\n--- first ---\n{base}\n--- second ---\n{other}")
 
 
-tape_harness("store_order", [("t", 16)], {}, store_body, globals())
-tape_harness("store_order2", [("t", 12)], {}, lambda t: store_body(t, 2), globals())
+tape_harness("store_order", [("t", 18)], {}, store_body, globals())
+tape_harness("store_order2", [("t", 14)], {}, lambda t: store_body(t, 2), globals())
 tape_harness("order3", [("t", 48)], {}, lambda t: order_body(t, 3, G_ORD3), globals())
 tape_harness("order2q", [("t", 30)], {}, lambda t: order_body(t, 2, G_ORD, True, False, RETS[:2]), globals())
 tape_harness("order2", [("t", 30)], {}, lambda t: order_body(t, 2, G_ORD2), globals())
